@@ -14,7 +14,7 @@ import (
 )
 
 type vfSeg struct {
-	Mode int    `json:"mode"` // 0 as written, 1 fixed Size, 2 pseudo-random 1..Size, 3 line aligned, 4 single bytes
+	Mode int    `json:"mode"` // 0 as written, 1 fixed Size, 2 pseudo-random 1..Size, 3 line aligned, 4 single bytes, 5 coalesced: what is written within 3 ms arrives as one read (cut at Size), so a read carries complete lines and the beginning of the next
 	Size int    `json:"size,omitempty"`
 	Seed uint64 `json:"seed,omitempty"`
 }
@@ -78,6 +78,10 @@ type vfLink struct {
 	started time.Time
 	lastAt  time.Time
 	applied int // faults that were actually applied inside the stream
+	pend      []byte     // mode 5: bytes waiting to be delivered together
+	pendTimer bool
+	emitMu    sync.Mutex // mode 5: cutting and emitting happen under it, so that the timer cannot overtake
+	silentIn  int        // > 0: the link goes silent after this many more bytes have been delivered (silence in the middle of a line)
 	breakAt int // > 0: the writer's breakAt-th Write call and all later ones fail (see Write)
 	writes  int
 }
@@ -349,13 +353,26 @@ func (l *vfLink) deliver(data []byte, off int64) {
 			out = b
 		}
 	}
+	if l.silentIn > 0 {
+		if len(out) >= l.silentIn {
+			out = out[:l.silentIn]
+			l.silentIn = 0
+			l.silent = true
+		} else {
+			l.silentIn -= len(out)
+		}
+	}
 	seg := l.seg
 	if l.wholeTrigger && bytes.Contains(out, []byte("::TRZSZ:TRANSFER:")) {
 		seg = vfSeg{}
 	}
+	coalescing := l.seg.Mode == 5
 	l.mu.Unlock()
 	if len(out) == 0 {
 		return
+	}
+	if coalescing && seg.Mode != 5 {
+		l.flushPend() // this piece goes out by itself (a trigger): what waits in front of it goes first
 	}
 	switch seg.Mode {
 	case 0:
@@ -384,6 +401,28 @@ func (l *vfLink) deliver(data []byte, off int64) {
 			l.emit(out[pos : pos+sz])
 			pos += sz
 		}
+	case 5:
+		sz := seg.Size
+		if sz < 1 {
+			sz = 1 << 20
+		}
+		l.emitMu.Lock()
+		l.mu.Lock()
+		l.pend = append(l.pend, out...)
+		var ready [][]byte
+		for len(l.pend) >= sz {
+			ready = append(ready, append([]byte(nil), l.pend[:sz]...))
+			l.pend = l.pend[sz:]
+		}
+		if len(l.pend) > 0 && !l.pendTimer {
+			l.pendTimer = true
+			time.AfterFunc(3*time.Millisecond, l.flushPend)
+		}
+		l.mu.Unlock()
+		for _, r := range ready {
+			l.emit(r)
+		}
+		l.emitMu.Unlock()
 	case 3:
 		pos := 0
 		for pos < len(out) {
@@ -401,6 +440,19 @@ func (l *vfLink) deliver(data []byte, off int64) {
 type vfLagged struct {
 	due  time.Time
 	data []byte
+}
+
+func (l *vfLink) flushPend() {
+	l.emitMu.Lock()
+	defer l.emitMu.Unlock()
+	l.mu.Lock()
+	rest := l.pend
+	l.pend = nil
+	l.pendTimer = false
+	l.mu.Unlock()
+	if len(rest) > 0 {
+		l.emit(rest)
+	}
 }
 
 func (l *vfLink) setLatency(d time.Duration) {
